@@ -102,6 +102,15 @@ CLAIMED = {
         "DESIGN.md 4 C13",
         "",
     ),
+    "C14": (
+        "Hypothesis tables rendered by Table.render, validity predicates on the rendered text (rectangle, width bound, aligned separators) and a per-column read-back of the cell text against the input; bounded-exhaustive CellWrapper.fit sweep",
+        "Generated tables (1-6 x 1-6, size-biased cells up to 1500 characters, long words, tagged words, header or not) in the four "
+        "predefined styles and customised variants with visible padding / separators, alignments, widths 20-200, indentation 0-8, ANSI "
+        "and plain: render succeeds, all lines equally wide and within the terminal, separators at the same positions in every line, "
+        "every column's characters read back in order, table unmodified, second render identical.",
+        "DESIGN.md 4 C14",
+        "Known finding (KNOWN-FINDING line): a tagged word cut by the format-unaware wrapper prints its tag literally.",
+    ),
     "C15": (
         "explicit-state enumeration of section operation sequences + Hypothesis sequences, emitted bytes replayed on a terminal emulator and compared with a stacked-contents model",
         "All applicable sequences of create/write_line/overwrite/clear/clear(k) over up to 3 sections (depth 5 quick, 6-7 thorough) at "
